@@ -16,7 +16,7 @@ import (
 var (
 	AllArgKinds = []Kind{KString, KStringPtr, KStringSlice, KInt, KInt8, KInt16, KInt32, KInt64, KUint, KUint8, KUint16,
 		KUint32, KUint64, KIntSlice, KIntPtr, KUint8Slice, KFloat32, KFloat64, KFloatSlice, KDuration, KDurSlice, KMapSS, KMapSI, KMapIS,
-		KUpper, KUpperSlice}
+		KUpper, KUpperSlice, KTri}
 	FlagKinds = []Kind{KBool, KBoolSlice, KBoolPtr}
 	FuncKinds = []Kind{KFunc0, KFuncS, KFuncI}
 	AllKinds  = append(append(append([]Kind{}, AllArgKinds...), FlagKinds...), FuncKinds...)
@@ -172,6 +172,8 @@ func genValidText(t *rapid.T, k Kind, base int) string {
 			return rapid.SampledFrom(stringPool).Draw(t, "str")
 		}
 		return rapid.StringN(0, 12, 40).Draw(t, "rstr")
+	case KTri:
+		return rapid.SampledFrom([]string{"on", "off"}).Draw(t, "tri")
 	case KBool:
 		return rapid.SampledFrom([]string{"true", "false", "1", "0", "T", "F"}).Draw(t, "bool")
 	case KFloat32, KFloat64:
@@ -227,6 +229,8 @@ func genInvalidText(t *rapid.T, k Kind, base int) string {
 		return ""
 	case KUpper:
 		return "x!bad"
+	case KTri:
+		return rapid.SampledFrom([]string{"true", "", "On", "maybe"}).Draw(t, "badtri")
 	case KBool:
 		return "maybe"
 	case KFloat32:
@@ -303,7 +307,8 @@ func (g *declGen) opt(ns *nameSets, nsPrefix string) Opt {
 		}
 		return genValidText(t, k, o.Base)
 	}
-	if cfg.Defaults && pct(t, "hasDefault", 30) {
+	// (a bool-kinded unmarshaler type is refused default tags by the library)
+	if cfg.Defaults && k != KTri && pct(t, "hasDefault", 30) {
 		n := rapid.IntRange(1, multi).Draw(t, "ndefaults")
 		for i := 0; i < n; i++ {
 			o.Defaults = append(o.Defaults, val("default"))
@@ -364,6 +369,14 @@ func (g *declGen) group(ns *nameSets, nsPrefix string, depth int, allowEmpty boo
 			gr.Plain = append(gr.Plain, Plain{Field: g.field("P"), Kind: pk, Init: rapid.SampledFrom([]string{"", "7", "x", "a,b"}).Draw(t, "plainInit")})
 			if pk == "int" && gr.Plain[len(gr.Plain)-1].Init != "7" {
 				gr.Plain[len(gr.Plain)-1].Init = "42"
+			}
+		}
+	}
+	if cfg.Plain {
+		for i := range gr.Options {
+			o := &gr.Options[i]
+			if (o.Kind == KStringSlice || o.Kind == KIntSlice || o.Kind == KFloatSlice) && len(o.Initial) > 0 && pct(t, "aliasPlain", 60) {
+				gr.Plain = append(gr.Plain, Plain{Field: g.field("P"), Kind: "alias:" + string(o.Kind), Init: o.ID})
 			}
 		}
 	}
